@@ -54,6 +54,15 @@ class HumanMessageSerializer:
         first_line = True
         cur_block = None
         msg = None
+        # Packed values whose serialization is deferred until their block is complete,
+        # packers may depend on sibling fields that come later in the block (PCode for State.)
+        pending_packed = []
+
+        def _pack_pending():
+            while pending_packed:
+                block, var_name, var_val, serializer = pending_packed.pop(0)
+                block[var_name] = serializer.serialize(block, var_val)
+
         lines = [x.strip() for x in string.split("\n") if x.strip()]
         while lines:
             line = lines.pop(0)
@@ -76,6 +85,7 @@ class HumanMessageSerializer:
                 continue
 
             if line.startswith("["):
+                _pack_pending()
                 block_name = re.search(r"\w+", line).group(0)
                 # Block that's present but has no entries (variable block with a 0 count)
                 if re.search(r"#\s*Empty\s*$", line):
@@ -135,9 +145,16 @@ class HumanMessageSerializer:
                     serializer = se.SUBFIELD_SERIALIZERS.get(ser_key)
                     if not serializer:
                         raise KeyError(f"No subfield serializer for {ser_key!r}")
-                    var_val = serializer.serialize(cur_block, var_val)
+                    if isinstance(serializer, (se.IntEnumSubfieldSerializer, se.IntFlagSubfieldSerializer)):
+                        # Never depend on other fields, and others may depend on them
+                        var_val = serializer.serialize(cur_block, var_val)
+                    else:
+                        pending_packed.append((cur_block, var_name, var_val, serializer))
+                        # Placeholder so the var keeps its position within the block
+                        var_val = None
 
                 cur_block[var_name] = var_val
+        _pack_pending()
         return msg
 
     @classmethod
